@@ -1103,8 +1103,9 @@ class Interp:
     def _is_literal(self, v: T) -> bool:
         if v.op in ("const", "enum"):
             return True
-        if v.op in ("func", "cls"):
-            return True          # a table entry naming a function / class
+        if v.op in ("func", "cls", "closure"):
+            return True          # a table entry naming a function / class /
+            #                      lambda
         if v.op == "global" and not v.args[0].startswith("evo."):
             return True          # ... or a library function / constant
         if v.op == "star":
